@@ -193,18 +193,18 @@ pub fn run_scase(c: &SCase) -> SObs {
                 let Some(addr) = w.addrs.get(*model as usize).cloned() else { return };
                 let m = Msg::new(eid, *script, *ttl);
                 macro_rules! go {
-                    ($d:expr) => {{
+                    ($d:expr, $f:expr) => {{
                         match (period, keyed) {
                             (None, None) => {
                                 o.sched = Some(sched_code(&w.sched.schedule_event(
                                     $d,
-                                    Node::on_event,
+                                    $f,
                                     m,
                                     &addr,
                                 )))
                             }
                             (None, Some(s)) => {
-                                let r = w.sched.schedule_keyed_event($d, Node::on_event, m, &addr);
+                                let r = w.sched.schedule_keyed_event($d, $f, m, &addr);
                                 o.sched = Some(sched_code(&r));
                                 if let Ok(k) = r {
                                     shared.dkeys.lock().unwrap()[*s as usize % nds] = Some(k);
@@ -214,7 +214,7 @@ pub fn run_scase(c: &SCase) -> SObs {
                                 o.sched = Some(sched_code(&w.sched.schedule_periodic_event(
                                     $d,
                                     std::time::Duration::from_nanos(*p),
-                                    Node::on_event,
+                                    $f,
                                     m,
                                     &addr,
                                 )))
@@ -223,7 +223,7 @@ pub fn run_scase(c: &SCase) -> SObs {
                                 let r = w.sched.schedule_keyed_periodic_event(
                                     $d,
                                     std::time::Duration::from_nanos(*p),
-                                    Node::on_event,
+                                    $f,
                                     m,
                                     &addr,
                                 );
@@ -235,9 +235,12 @@ pub fn run_scase(c: &SCase) -> SObs {
                         }
                     }};
                 }
-                match dl {
-                    Dl::Rel(d) => go!(std::time::Duration::from_nanos(*d)),
-                    Dl::Abs(t) => go!(to_time(*t)),
+                let sync = c.bench.models.get(*model as usize).map_or(false, |ms| crate::core::use_sync_input(&ms.scripts, &m));
+                match (dl, sync) {
+                    (Dl::Rel(d), false) => go!(std::time::Duration::from_nanos(*d), Node::on_event),
+                    (Dl::Abs(t), false) => go!(to_time(*t), Node::on_event),
+                    (Dl::Rel(d), true) => go!(std::time::Duration::from_nanos(*d), Node::on_event_sync),
+                    (Dl::Abs(t), true) => go!(to_time(*t), Node::on_event_sync),
                 }
             }
             Cmd::SchedAction {
